@@ -278,7 +278,9 @@ impl<'a> FilterCommentProcessor<'a> {
     }
 
     fn ignore_trivia(&self, trivia: &Trivia) -> bool {
-        let content = trivia.read(self.original_code);
+        // in a file with CRLF line endings, the carriage return is read with a line comment but
+        // it belongs to the line break: a pattern anchored with `$` must not see it
+        let content = trivia.read(self.original_code).trim_end_matches('\r');
         self.except.iter().any(|pattern| pattern.is_match(content))
     }
 }
